@@ -547,6 +547,26 @@ pub fn check_trace_invariants(log: &[Call], initial_max_id: Option<u64>, out: &m
     }
 }
 
+/// Total size of the data files of a store that was created empty and given exactly `pairs`.
+fn fresh_store_size(dir: &Path, cfg: &Cfg, pairs: &Kv) -> Option<u64> {
+    rmrf(dir);
+    std::fs::create_dir_all(dir).ok()?;
+    let r = catch(|| -> Option<u64> {
+        let kv = cfg.build(dir).open().ok()?;
+        let h = kv.get_handle();
+        for (k, v) in pairs {
+            h.set(b(k.clone()), b(v.clone())).ok()?;
+        }
+        drop(h);
+        drop(kv);
+        Some(data_files(&list_dir(dir)).values().map(|x| x.len() as u64).sum())
+    })
+    .ok()
+    .flatten();
+    rmrf(dir);
+    r
+}
+
 /// Copy the directory twice (with / without hint files), open both with the real code and compare.
 fn check_c12(e: &Exec, files: &BTreeMap<String, Vec<u8>>, keys: &[u8], out: &mut Vec<(String, String, Option<usize>)>, step: usize) {
     let a = e.dir.with_extension("withhint");
@@ -711,7 +731,9 @@ fn run_word_here(prop: &str, cfg: Cfg, word: &[Op], keys: &[u8], o: Oracles, tra
                 }
             }
             if e.cfg.thr == Thr::All {
-                let minimal: u64 = e.model.iter().map(|(k, v)| model::entry_size(k, v)).sum();
+                // "a fresh store holding only the live pairs", built with the real code (the size an
+                // independent model of the file format gives is used only if that fails)
+                let minimal: u64 = fresh_store_size(&e.dir.with_extension("fresh"), &e.cfg, &e.model).unwrap_or_else(|| e.model.iter().map(|(k, v)| model::entry_size(k, v)).sum());
                 if after != minimal {
                     viol.push(("C13:not-minimal-after-full-merge".into(), format!("data files total {} bytes after a merge of every file, live pairs need {}", after, minimal), Some(i)));
                 }
@@ -782,11 +804,12 @@ fn run_word_here(prop: &str, cfg: Cfg, word: &[Op], keys: &[u8], o: Oracles, tra
                     viol.push((format!("{}:index-changed-by-reopen", prop), format!("reopen #{} changed the index", t + 1), Some(word.len() + t)));
                 }
             }
-            // the only directory change is one new empty data file
-            let new: Vec<&String> = files.keys().filter(|n| !prev_files.contains_key(*n)).collect();
-            let gone: Vec<&String> = prev_files.keys().filter(|n| !files.contains_key(*n)).collect();
+            // "changes nothing": no file with content appears, disappears or changes (the pinned code
+            // adds one empty data file per open; empty files coming or going carry no information)
+            let new: Vec<&String> = files.keys().filter(|n| !prev_files.contains_key(*n) && !files[*n].is_empty()).collect();
+            let gone: Vec<&String> = prev_files.keys().filter(|n| !files.contains_key(*n) && !prev_files[*n].is_empty()).collect();
             let changed: Vec<&String> = files.iter().filter(|(n, b)| prev_files.get(*n).map_or(false, |o| o != *b)).map(|(n, _)| n).collect();
-            let ok = gone.is_empty() && changed.is_empty() && new.len() == 1 && new[0].ends_with(".data") && files[new[0]].is_empty();
+            let ok = gone.is_empty() && changed.is_empty() && new.is_empty();
             if !ok {
                 viol.push((format!("{}:reopen-changed-directory", prop), format!("reopen #{}: new {:?}, gone {:?}, changed {:?}", t + 1, new, gone, changed), Some(word.len() + t)));
             }
@@ -978,6 +1001,8 @@ pub fn plan(prop: &str, tier: Tier, seeds: &[u64]) -> Vec<Sweep> {
             // the same from a non-initial state: 8 earlier incarnations have left ids 0..7 behind, so
             // the words' entries land in files 8, 9, 10, 11, ... (across the 9 / 10 boundary)
             sweeps.push(Sweep { name: "many-files-from-id-8".into(), alphabet: vec![SET_A1, SET_A22, SET_B1, DEL_A, DEL_B, Op::Reopen], depth: tier.pick(5, 6), cfgs: core_grid(&seeds[..1], &[Thr::None], &[0]), oracles: o, keys: main_keys.clone(), trailing_reopens: 2, preload: vec![Op::Reopen; 8] });
+            // histories whose data files include merge outputs (and their hint files)
+            sweeps.push(Sweep { name: "with-merges".into(), alphabet: vec![SET_A1, SET_A22, SET_B1, DEL_A, Op::Merge, Op::Reopen], depth: tier.pick(5, 6), cfgs: core_grid(&seeds[..1], &[Thr::All, Thr::Dead, Thr::Size27], &[0, 60]), oracles: o, keys: main_keys.clone(), trailing_reopens: 2, preload: vec![] });
             sweeps.push(Sweep { name: "clock".into(), alphabet: vec![SET_A1, SET_A22, SET_B1, DEL_A, DEL_B, Op::Reopen], depth: tier.pick(4, 6), cfgs: with_clocks(core_grid(&seeds[..1], &[Thr::None], &mfss)), oracles: o, keys: main_keys.clone(), trailing_reopens: 2, preload: vec![] });
         }
         "C05" => {
